@@ -300,6 +300,10 @@ def run_posix(desc):
              ('[A-\\\\]', rng('A', '\\'), False), ('[!A-\\\\]', rng('A', '\\'), True), ('[0-\\\\]', rng('0', '\\'), False),
              ('[\\\\-a]', rng('\\', 'a'), False), ('[\\\\-\\]]', rng('\\', ']'), False), ('[%-\\\\x]', rng('%', '\\') | set('x'), False),
              ('[\\\\-A]', set(), False), ('[!\\\\-A]', set(), True)]
+    # bracket expressions that hold a bar (after an escaped `]`, a leading `]`, a POSIX class ...)
+    BAR_SETS = {'[\\]|]': set(']|'), '[]|]': set(']|'), '[a\\]|b]': set('a]|b'), '[|]': set('|'), '[!|]': None, '[[:alpha:]|]': None, '[\\\\|]': set('\\|'),
+                '[a|b]': set('a|b')}
+    table = list(table) + [(t_, m_, False) for t_, m_ in BAR_SETS.items() if m_ is not None] + [('[!|]', set('|'), True)]
     ascii_chars = [chr(i) for i in range(1, 128) if chr(i) != '/']
     for text, members, neg in table:
         if members is None:
@@ -311,6 +315,17 @@ def run_posix(desc):
             try:
                 acc = set(F.filter(names, pat, flags=F.DOTMATCH | F.EXTMATCH))
                 bacc = set(F.filter([n.encode() for n in names], pat.encode(), flags=F.DOTMATCH | F.EXTMATCH))
+                if '|' not in pat.replace('|q)', '') or text in BAR_SETS:
+                    # SPLIT changes nothing for a pattern whose only bars stand inside a bracket expression (or inside the group)
+                    sacc = set(F.filter(names, pat, flags=F.DOTMATCH | F.EXTMATCH | F.SPLIT))
+                    if sacc != acc:
+                        d_ = sorted(sacc ^ acc)[0]
+                        out.violation({'mode': 'fn', 'pattern': pat, 'cfg': {'dot': True, 'ext': True}, 'name': d_, 'verdict': R.MUST if d_ in acc else R.MUSTNOT,
+                                       'impl': d_ in sacc, 'stream': 'brackets-split', 'raw': True, 'flags': F.DOTMATCH | F.EXTMATCH | F.SPLIT,
+                                       'flags_without_negate': F.DOTMATCH | F.EXTMATCH,
+                                       'problem': 'SPLIT changes the meaning of a pattern whose bars all stand inside a bracket expression'},
+                                      size=10, bucket=('brackets-split', text))
+                        break
             except Exception as e:
                 out.violation({'mode': 'fn', 'pattern': pat, 'cfg': {'dot': True, 'ext': True}, 'name': names[0], 'verdict': R.MUSTNOT,
                                'impl': type(e).__name__, 'stream': 'brackets', 'raw': True, 'problem': 'exception'}, size=10, bucket=('brackets-exc', text))
@@ -387,6 +402,10 @@ def run_posix(desc):
 
 
 def replay(case):
+    if case.get('stream') == 'brackets-split':
+        a = bool(F.fnmatch(case['name'], case['pattern'], flags=case['flags']))
+        b = bool(F.fnmatch(case['name'], case['pattern'], flags=case['flags_without_negate']))
+        return a == b, {'with_split': a, 'without': b}
     if case.get('stream') == 'neg-opener':
         mod = F if case['mode'] == 'fn' else G
         conv = (lambda x: x.encode()) if case.get('bytes') else (lambda x: x)
